@@ -42,7 +42,7 @@ func (u *Unit) libModel(st *State, v ssa.Value, key string, callee *ssa.Function
 		return true
 	case "errors.New":
 		r := u.s.fresh("errnew", SIfc)
-		u.s.assume(not(eq(sx("ifc_tag", r), "0")))
+		u.s.assumeGlobal(not(eq(sx("ifc_tag", r), "0")))
 		st.regs[v] = r
 		return true
 	case "errors.Join":
@@ -65,7 +65,7 @@ func (u *Unit) libModel(st *State, v ssa.Value, key string, callee *ssa.Function
 		return true
 	case "fmt.Errorf":
 		r := u.s.fresh("errorf", SIfc)
-		u.s.assume(not(eq(sx("ifc_tag", r), "0")))
+		u.s.assumeGlobal(not(eq(sx("ifc_tag", r), "0")))
 		format, okf := constString(c.Args[0])
 		ops, oko := varargOperands(c.Args[1])
 		var wrapped []Term
@@ -101,7 +101,7 @@ func (u *Unit) libModel(st *State, v ssa.Value, key string, callee *ssa.Function
 		u.s.assume(implies(st.reach, fmt.Sprintf("(forall ((t Ifc)) (! (=> (not (= (ifc_tag t) 0)) (= (errIs %s t) (or (= %s t) %s))) :pattern ((errIs %s t))))", r, r, or(isAny...), r)))
 		// a fresh error value is distinct from every sentinel
 		for _, s := range u.sentinels {
-			u.s.assume(sx("distinct", r, s.name))
+			u.s.assumeGlobal(sx("distinct", r, s.name))
 		}
 		u.freshErrs = append(u.freshErrs, r)
 		st.regs[v] = r
@@ -176,9 +176,9 @@ func (u *Unit) libModel(st *State, v ssa.Value, key string, callee *ssa.Function
 		u.s.assume(implies(st.reach, eq(eq(sx("ifc_tag", errv), "0"), sx("str_validhex", s))))
 		u.s.assume(implies(st.reach, implies(eq(sx("ifc_tag", errv), "0"), eq(sx("ifc_pay", errv), "0"))))
 		u.s.assume(implies(st.reach, implies(sx("str_validhex", s), eq(sx("*", "2", sx("blen", sx("unhex", s))), sx("slen", s)))))
-		u.s.assume(fmt.Sprintf("(forall ((b Bytes)) (! (str_validhex (hexstr b)) :pattern ((hexstr b))))"))
+		u.s.assumeGlobal(fmt.Sprintf("(forall ((b Bytes)) (! (str_validhex (hexstr b)) :pattern ((hexstr b))))"))
 		for _, sn := range u.sentinels {
-			u.s.assume(sx("distinct", errv, sn.name))
+			u.s.assumeGlobal(sx("distinct", errv, sn.name))
 		}
 		st.tups[v] = []Term{sx("unhex", s), errv}
 		return true
@@ -195,7 +195,7 @@ func (u *Unit) libModel(st *State, v ssa.Value, key string, callee *ssa.Function
 		u.s.assume(implies(st.reach, implies(eq(sx("ifc_tag", errv), "0"), eq(sx("ifc_pay", errv), "0"))))
 		u.s.assume(implies(st.reach, sx(">=", sx("str_parseuint", s), "0")))
 		for _, sn := range u.sentinels {
-			u.s.assume(sx("distinct", errv, sn.name))
+			u.s.assumeGlobal(sx("distinct", errv, sn.name))
 		}
 		st.tups[v] = []Term{ite(sx("str_parseuint_ok", s), sx("str_parseuint", s), "0"), errv}
 		u.note("strconv.ParseUint modelled by uninterpreted (ok, value) functions of the string")
